@@ -887,7 +887,8 @@ Qed.
 (** * 6. Appending: existing members first, then the formatted incoming members *)
 Lemma fmtv_ok ff s v x : fmtv ff s v = Ok x -> fmt ff s v = Ok x.
 Proof.
-  unfold fmtv. destruct (fmt ff s v) as [y| |]; try discriminate.
+  unfold fmtv. destruct (keys_fmt_ok ff (s_root s) v); [|discriminate].
+  destruct (fmt ff s v) as [y| |]; try discriminate.
   destruct (keys_ok y); [now inversion 1|discriminate].
 Qed.
 
